@@ -12,6 +12,7 @@ class Shadow:
         self.tag = 0
         self.setup_done = role == 'client'
         self.chan_complete_sids = set()
+        self.pending_frags = []      # remaining fragments (stimuli) of frames the peer has started to send
         self.big = False        # the endpoint fragments: some payloads handed to it span several fragments
 
     def data(self, rng, n):
@@ -66,7 +67,7 @@ FRAGMENTABLE = ('REQUEST_RESPONSE', 'REQUEST_FNF', 'REQUEST_STREAM', 'REQUEST_CH
 def fragmented(rng, sh, s):
     """a peer with fragmentation enabled: a payload-carrying frame arrives as 2..3 legal fragments (first keeps the type and the request-n,
     FOLLOWS on all but the last, COMPLETE only on the last, continuation fragments are PAYLOAD frames), delivered back to back"""
-    if s['op'] != 'recv' or rng.random() >= 0.3:
+    if s['op'] != 'recv' or s.get('continuation') or rng.random() >= 0.3:
         return [s]
     f = s['frame']
     if f['ty'] not in FRAGMENTABLE or f.get('follows') or f['sid'] == 0:
@@ -88,6 +89,10 @@ def fragmented(rng, sh, s):
         out.append({'op': 'recv', 'frame': g, 'beh': s.get('beh', 'k')})
     if f['ty'] == 'REQUEST_CHANNEL' and f.get('complete'):
         sh.chan_complete_sids.add(f['sid'])
+    if rng.random() < 0.5 and not any(p['frame']['sid'] == f['sid'] for p in sh.pending_frags):
+        # the rest arrives later: other streams' frames, local activity or the end of the connection may come in between
+        sh.pending_frags.extend(out[1:])
+        return out[:1]
     return out
 
 
@@ -121,6 +126,8 @@ def choose_one(rng, H, sh, profile):
     _sync(H, sh)
     if H.closed_seen and rng.random() < 0.7:
         return None
+    if sh.pending_frags and not H.closed_seen and rng.random() < 0.55:
+        return dict(sh.pending_frags.pop(0), continuation=True)
     opts = []
     w = opts.append
     hostile = profile == 'hostile'
@@ -175,6 +182,8 @@ def choose_one(rng, H, sh, profile):
             w((0.2, lambda: peer({'ty': 'LEASE', 'sid': 0, 'n': 3, 'code': 1000})))
             for oid, i in sh.info.items():
                 k, sid = i['kind'], i['sid']
+                if any(p['frame']['sid'] == sid for p in sh.pending_frags):
+                    continue        # a legal peer does not interleave other frames of a stream with the fragments of one of its frames
                 inflight = i['we_cancel'] and rng.random() < 0.3      # frames the peer sent before it saw our cancel
                 if k == 'rrReq' and i['sent'] and not i['peer_term'] and (not i['we_cancel'] or inflight):
                     w((4, lambda sid=sid: peer({'ty': 'PAYLOAD', 'sid': sid, 'data': sh.fresh(rng.choice([0, 1, 1, 2])), 'complete': True})))
@@ -248,7 +257,7 @@ def raw_item(rng, sh, sids, tys):
 def note(sh, H, s):
     """update what peer/app have done after choosing a stimulus"""
     op = s['op']
-    if op == 'raw':
+    if op == 'raw' or s.get('continuation'):
         return
     if op == 'recv':
         f = s['frame']
